@@ -94,6 +94,24 @@ pub fn neighbours(ctx: &Ctx) {
     }
 }
 
+/// call orders and finalize flows: all programs of depth <= 2 over the image / blob alphabet with
+/// the projection added before the visual reference, an additional finalize() after the first op,
+/// a finalize_customized_xml whose transformer fails in front of the real finalize, or all three
+pub fn flows(ctx: &Ctx) {
+    let depth = 1 + ctx.pick("depth", 2);
+    let mut ops = Vec::new();
+    for pos in 0..depth {
+        ops.push(op6(ctx.pick("op", N_OPS6), pos));
+    }
+    let flow = 1 + ctx.pick("flow", 7);
+    let p = Program { guid: "g".into(), ops, projection_first: flow & 1 != 0, checkpoint_after: if flow & 2 != 0 { Some(0) } else { None }, failed_finalize_first: flow & 4 != 0, ..Default::default() };
+    if let Some((_, rb)) = roundtrip_src(ctx, &p, P, SRC_MODES[depth % 3]) {
+        if !rb.scene.images.is_empty() {
+            ctx.nontrivial();
+        }
+    }
+}
+
 /// payloads behind a lot of data: a blob and an image (with masks, one of them empty) behind
 /// 100 KiB .. 4 MiB of other content, so that physical and logical offsets differ by whole pages
 pub fn behind(ctx: &Ctx) {
